@@ -1,6 +1,7 @@
 package main
 
 import (
+	"os"
 	"sync"
 	"time"
 
@@ -71,7 +72,11 @@ func c11Text(r *Rand, n int) []byte {
 		l = r.Range(2000, 3200)
 	}
 	seps := []byte(".:;,!?\"'")
-	style := r.Intn(8)
+	style := r.Intn(12)
+	rep := byte(r.Intn(256))
+	for rep == '\r' || rep == '\n' {
+		rep = byte(r.Intn(256))
+	}
 	b := make([]byte, l)
 	for i := range b {
 		var c byte
@@ -119,6 +124,25 @@ func c11Text(r *Rand, n int) []byte {
 			} else {
 				c = byte(0x80 + r.Intn(0x40))
 			}
+		case 8: // UTF-8 continuation bytes only, no space anywhere
+			c = byte(0x80 + r.Intn(0x40))
+		case 9: // UTF-8 lead bytes only
+			c = byte(0xC0 + r.Intn(0x38))
+		case 10: // valid multi-byte UTF-8 (2-, 3- and 4-byte sequences laid out by position), no spaces
+			switch i % 9 {
+			case 0:
+				c = 0xC3
+			case 2:
+				c = 0xE2
+			case 5:
+				c = 0xF0
+			case 6:
+				c = 0x9F
+			default:
+				c = byte(0x80 + r.Intn(0x40))
+			}
+		case 11: // one byte repeated
+			c = rep
 		default: // only spaces / only separators
 			if r.Bool() {
 				c = ' '
@@ -170,6 +194,9 @@ func c11Gen(r *Rand, tier string, scale int, emit func(Fields)) {
 	targets := []string{"#chan", "nick", "&x", "a", "#a-very-long-channel-name-indeed"}
 	verbs := []string{"ACTION", "version", "Ping", "x", "FOO9"}
 	ms := []string{"Privmsg", "Notice", "Ctcp", "CtcpReply", "Privmsgln", "Privmsgf"}
+	// the first message this Conn ever sends goes out under the largest limit: every later
+	// case then runs under a SplitLen that was CHANGED on a live client (smaller or larger)
+	emit(F("wire", "Privmsg", "#chan", "x", c11Text(r, 3000), 3000))
 	for i := 0; i < nwire; i++ {
 		n := c11SplitLens[r.Intn(len(c11SplitLens))]
 		if i%10 == 0 && i < 600 {
@@ -184,13 +211,24 @@ func c11Gen(r *Rand, tier string, scale int, emit func(Fields)) {
 func c11Exec(in Fields) (obs Fields) {
 	switch in.S(0) {
 	case "split":
-		defer func() {
-			if e := recover(); e != nil {
-				obs = F("panic")
-			}
+		// run on its own goroutine: a split that never terminates must end the harness while
+		// this input is still the one in flight (the driver then reports it as the failing case)
+		done := make(chan Fields, 1)
+		go func() {
+			defer func() {
+				if e := recover(); e != nil {
+					done <- F("panic")
+				}
+			}()
+			ps := client.VerifSplitMessage(in.S(1), in.I(2))
+			done <- F("ok", ps)
 		}()
-		ps := client.VerifSplitMessage(in.S(1), in.I(2))
-		return F("ok", ps)
+		select {
+		case o := <-done:
+			return o
+		case <-time.After(15 * time.Second):
+			os.Exit(4)
+		}
 	case "wire":
 		m, t, ctcp, text, n := in.S(1), in.S(2), in.S(3), in.S(4), in.I(5)
 		c11ws.Conn.Config().SplitLen = n
@@ -216,8 +254,14 @@ func c11Exec(in Fields) (obs Fields) {
 			}
 			defer func() { c11ws.Pace = nil }()
 		}
-		w := c11ws.Call(func() { callMethod(c11ws.Conn, m, args) })
-		return F(splitCRLF(w))
+		wc := make(chan []byte, 1)
+		go func() { wc <- c11ws.Call(func() { callMethod(c11ws.Conn, m, args) }) }()
+		select {
+		case w := <-wc:
+			return F(splitCRLF(w))
+		case <-time.After(60 * time.Second): // the method itself never returned
+			os.Exit(4)
+		}
 	}
 	return F("bad")
 }
